@@ -15,10 +15,11 @@ import MW.Lemmas.FeeLoop
 import MW.Lemmas.FeeComplete
 import MW.Lemmas.FeeManual
 import MW.Lemmas.FeeReserve
+import MW.Lemmas.FeeRelease
 namespace MW.Props.C02
 open MW MW.Model.Select MW.Model.Fee
 open MW.Lemmas.SelectHeap MW.Lemmas.SelectTopK MW.Lemmas.SelectGreedy MW.Lemmas.SelectPipeline
-open MW.Lemmas.FeeLoop MW.Lemmas.FeeComplete MW.Lemmas.FeeManual MW.Lemmas.FeeReserve
+open MW.Lemmas.FeeLoop MW.Lemmas.FeeComplete MW.Lemmas.FeeManual MW.Lemmas.FeeReserve MW.Lemmas.FeeRelease
 
 -- ------------------------------------------------------------------ 1. topK_spec
 
@@ -378,6 +379,24 @@ theorem reserve_monotone (qs : List CreateReq) :
   intro s
   have := sinv_run {} qs sinv_init
   exact ⟨this.disjoint, this.held⟩
+
+/-- reserve_release: the same over ANY sequence of create calls AND releases (the API releases a draft
+    when signing it fails; a release may be repeated, e.g. a stale retry): the drafts that are still
+    OUTSTANDING are pairwise disjoint and every input of an outstanding draft is still reserved – so an
+    automatic create never hands out a coin of an outstanding draft (`eligible_only`).  Hypothesis: the
+    drafts have distinct identities (transaction ids). -/
+theorem reserve_release (ops : List ROp) (hnd : (createHolders ops).Nodup) :
+    let s := RSession.run {} ops
+    s.drafts.Pairwise (fun a b => a.outstanding = true → b.outstanding = true → ∀ i ∈ a.ins, i ∉ b.ins) ∧
+    (∀ d ∈ s.drafts, d.outstanding = true → ∀ i ∈ d.ins, utxoUsed s.reserved i = true) := by
+  intro s
+  have inv := rinv2_run ops {} hnd ⟨rinv_init, by simp, by simp⟩
+  refine ⟨inv.base.disjoint, ?_⟩
+  intro d hd ho i hi
+  exact utxoUsed_of_holder _ _ _ (inv.base.held d hd ho i hi)
+
+example : (createHolders [.create { view := [], addrs := [], outs := [], holder := "t1" }, .release 0,
+    .create { view := [], addrs := [], outs := [], holder := "t2" }]).Nodup := by decide
 
 /-- the API's fee ceiling: a fee above the ceiling is refused, a fee within it passes -/
 theorem feeLimit_iff (maxFee fee : Nat) : checkTxFeeLimit maxFee fee = .ok () ↔ fee ≤ maxFee := by
